@@ -86,7 +86,7 @@ func zeroExpr(t string) string {
 	case t == "int":
 		return "1"
 	}
-	if strings.HasPrefix(t, "I") {
+	if strings.HasPrefix(t, "I") || strings.HasPrefix(t, "func(") || strings.Contains(t, "chan ") {
 		return "nil"
 	}
 	return t + "{}"
